@@ -198,7 +198,7 @@ def old_catalog_records():
 
 
 # ------------------------------------------------------------------ the run
-def run_creation(case: dict, root: str, *, sim_kwargs: dict | None = None) -> dict:
+def run_creation(case: dict, root: str, *, sim_kwargs: dict | None = None, trace_hook=None) -> dict:
     """Execute one creation case under ``root`` (a fresh scratch directory)."""
     import yaw
     import yaw.catalog.catalog as ycat
@@ -343,7 +343,10 @@ def run_creation(case: dict, root: str, *, sim_kwargs: dict | None = None) -> di
     saved_tc = ycat.treecorr
     ycat.treecorr = wl.SeededTreecorr(d["data_seed"] % 9973)
     try:
-        with fakemp.patched(sim), _Tracer(trace):
+        import contextlib
+
+        extra = trace_hook(trace) if trace_hook is not None else contextlib.nullcontext()
+        with fakemp.patched(sim), _Tracer(trace), extra:
             verdict = sim.run(main)
     finally:
         ycat.treecorr = saved_tc
